@@ -169,8 +169,13 @@ def gen(tier, rng):
                     r2 = random.Random(seed + 1)
                     mx, nc = info["max"], info["nc"]
                     vals = []
+                    run_left, run_a = 0, 0
                     for _ in range(w * 3):
-                        vals += [r2.choice([r2.randint(0, mx), mx, mx // 2 + 1, mx // 2 + 2]) for _ in range(nc - 1)] + [r2.choice([0, 1, 1, 2, 3, 254, 255, mx - 1, mx])]
+                        if run_left == 0:          # alpha in runs of 1..9 equal values: whole vectors opaque / transparent / mixed
+                            run_left = r2.randint(1, 9)
+                            run_a = r2.choice([0, 1, 1, 2, 3, 254, 255, mx - 1, mx, mx, mx])
+                        run_left -= 1
+                        vals += [r2.choice([r2.randint(0, mx), mx, mx // 2 + 1, mx // 2 + 2]) for _ in range(nc - 1)] + [run_a]
                     cont2 = {"g": "data", "v": vals}
                     for cpu in rz.CPUS:
                         cases.append(rz.img_case(op, pt, w, 3, src_c=cont2, dst_c=cont2 if op.endswith("_inplace") else None,
